@@ -85,53 +85,80 @@ func c19bytes(bs []byte) string {
 	return strings.Join(ss, ",")
 }
 
-// ---- one case per sub-op: call the real code, record inputs, outputs, unmodified flag ----
+// ---- one case per sub-op: call the real code (never letting a panic escape), record inputs,
+// outputs (the word "panic" in every output field when the call panicked), unmodified flag ----
+
+// c19call runs f and reports whether it panicked.
+func c19call(g *Gen, op string, f func()) bool {
+	if p := safe(f); p != "" {
+		g.Count(op + "-panic")
+		return true
+	}
+	return false
+}
+
+func c19out(panicked bool, s string) string {
+	if panicked {
+		return "panic"
+	}
+	return s
+}
 
 func c19Mask(g *Gen, l, h uint) {
-	m := verifhooks.BigintMask(l, h)
-	g.Line("c19", "mask", fmt.Sprint(l), fmt.Sprint(h), m.String(), "1")
+	out := ""
+	p := c19call(g, "mask", func() { out = verifhooks.BigintMask(l, h).String() })
+	g.Line("c19", "mask", fmt.Sprint(l), fmt.Sprint(h), c19out(p, out), "1")
 	g.Count("mask")
 }
 
 func c19Ones(g *Gen, n uint) {
-	m := verifhooks.BigintOnes(n)
-	g.Line("c19", "ones", fmt.Sprint(n), m.String(), "1")
+	out := ""
+	p := c19call(g, "ones", func() { out = verifhooks.BigintOnes(n).String() })
+	g.Line("c19", "ones", fmt.Sprint(n), c19out(p, out), "1")
 	g.Count("ones")
 }
 
 func c19Extract(g *Gen, x *big.Int, l, h uint) {
 	before := new(big.Int).Set(x)
-	e := verifhooks.BigintExtract(x, l, h)
-	g.Line("c19", "extract", before.String(), fmt.Sprint(l), fmt.Sprint(h), e.String(), b01(before.Cmp(x) == 0))
+	out := ""
+	p := c19call(g, "extract", func() { out = verifhooks.BigintExtract(x, l, h).String() })
+	g.Line("c19", "extract", before.String(), fmt.Sprint(l), fmt.Sprint(h), c19out(p, out), b01(before.Cmp(x) == 0))
 	g.Count("extract")
 }
 
 func c19IsPow2(g *Gen, x *big.Int) {
 	before := new(big.Int).Set(x)
-	r := verifhooks.BigintIsPow2(x)
-	g.Line("c19", "ispow2", before.String(), b01(r), b01(before.Cmp(x) == 0))
+	out := ""
+	p := c19call(g, "ispow2", func() { out = b01(verifhooks.BigintIsPow2(x)) })
+	g.Line("c19", "ispow2", before.String(), c19out(p, out), b01(before.Cmp(x) == 0))
 	g.Count("ispow2")
 }
 
 func c19Pow2UpTo(g *Gen, x *big.Int) {
 	before := new(big.Int).Set(x)
-	r := verifhooks.BigintPow2UpTo(x)
-	g.Line("c19", "pow2upto", before.String(), encInts(r), b01(before.Cmp(x) == 0))
+	out := ""
+	p := c19call(g, "pow2upto", func() { out = encInts(verifhooks.BigintPow2UpTo(x)) })
+	g.Line("c19", "pow2upto", before.String(), c19out(p, out), b01(before.Cmp(x) == 0))
 	g.Count("pow2upto")
 }
 
 func c19BitsSet(g *Gen, x *big.Int) {
 	before := new(big.Int).Set(x)
-	r := verifhooks.BigintBitsSet(x)
-	g.Line("c19", "bitsset", before.String(), encIntSlice(r), b01(before.Cmp(x) == 0))
+	out := ""
+	p := c19call(g, "bitsset", func() { out = encIntSlice(verifhooks.BigintBitsSet(x)) })
+	g.Line("c19", "bitsset", before.String(), c19out(p, out), b01(before.Cmp(x) == 0))
 	g.Count("bitsset")
 }
 
 func c19MinMax(g *Gen, x, y *big.Int) {
 	bx, by := new(big.Int).Set(x), new(big.Int).Set(y)
-	mn, mx := verifhooks.BigintMinMax(x, y)
-	// the results must be the arguments themselves or equal to them; recorded by value
-	g.Line("c19", "minmax", bx.String(), by.String(), mn.String(), mx.String(), b01(bx.Cmp(x) == 0 && by.Cmp(y) == 0))
+	smn, smx := "", ""
+	p := c19call(g, "minmax", func() {
+		mn, mx := verifhooks.BigintMinMax(x, y)
+		smn, smx = mn.String(), mx.String()
+	})
+	// the results are recorded by value
+	g.Line("c19", "minmax", bx.String(), by.String(), c19out(p, smn), c19out(p, smx), b01(bx.Cmp(x) == 0 && by.Cmp(y) == 0))
 	g.Count("minmax")
 }
 
@@ -140,47 +167,52 @@ func c19Uint64s(g *Gen, x *big.Int) {
 		return // the Go loop does not terminate on negative input (model: diverges); never generated
 	}
 	before := new(big.Int).Set(x)
-	r := verifhooks.BigintUint64s(x)
-	g.Line("c19", "uint64s", before.String(), c19u64s(r), b01(before.Cmp(x) == 0))
+	out := ""
+	p := c19call(g, "uint64s", func() { out = c19u64s(verifhooks.BigintUint64s(x)) })
+	g.Line("c19", "uint64s", before.String(), c19out(p, out), b01(before.Cmp(x) == 0))
 	g.Count("uint64s")
 }
 
 func c19BytesLE(g *Gen, x *big.Int) {
 	before := new(big.Int).Set(x)
-	r := verifhooks.BigintBytesLittleEndian(x)
-	g.Line("c19", "bytesle", before.String(), c19bytes(r), b01(before.Cmp(x) == 0))
+	out := ""
+	p := c19call(g, "bytesle", func() { out = c19bytes(verifhooks.BigintBytesLittleEndian(x)) })
+	g.Line("c19", "bytesle", before.String(), c19out(p, out), b01(before.Cmp(x) == 0))
 	g.Count("bytesle")
 }
 
 func c19Parse(g *Gen, op, s string) {
-	var x *big.Int
-	var ok bool
-	if op == "hex" {
-		x, ok = verifhooks.BigintHex(s)
-	} else {
-		x, ok = verifhooks.BigintBinary(s)
-	}
-	v := "0"
-	if ok && x != nil {
-		v = x.String()
-	}
-	g.Line("c19", op, encHex(s), b01(ok), v, "1")
+	sok, v := "", "0"
+	p := c19call(g, op, func() {
+		var x *big.Int
+		var ok bool
+		if op == "hex" {
+			x, ok = verifhooks.BigintHex(s)
+		} else {
+			x, ok = verifhooks.BigintBinary(s)
+		}
+		if ok && x != nil {
+			v = x.String()
+		}
+		sok = b01(ok)
+	})
+	g.Line("c19", op, encHex(s), c19out(p, sok), c19out(p, v), "1")
 	g.Count(op)
 }
 
 func c19Sort(g *Gen, xs []*big.Int) {
 	in := encInts(xs)
 	ptrs, vals := c19snap(xs)
-	verifhooks.BigintsSort(xs)
+	p := c19call(g, "sort", func() { verifhooks.BigintsSort(xs) })
 	// in place: every pointer still present exactly once, pointees unchanged
 	unch := len(xs) == len(ptrs)
 	used := make([]bool, len(ptrs))
-	for _, p := range xs {
+	for _, q := range xs {
 		found := false
-		for j, q := range ptrs {
-			if !used[j] && p == q {
+		for j, o := range ptrs {
+			if !used[j] && q == o {
 				used[j] = true
-				found = p.Cmp(vals[j]) == 0
+				found = q.Cmp(vals[j]) == 0
 				break
 			}
 		}
@@ -188,47 +220,51 @@ func c19Sort(g *Gen, xs []*big.Int) {
 			unch = false
 		}
 	}
-	g.Line("c19", "sort", in, encInts(xs), b01(unch))
+	g.Line("c19", "sort", in, c19out(p, encInts(xs)), b01(unch))
 	g.Count("sort")
 }
 
 func c19Search(g *Gen, op string, n *big.Int, xs []*big.Int) {
 	bn := new(big.Int).Set(n)
 	ptrs, vals := c19snap(xs)
-	var out string
-	switch op {
-	case "index":
-		out = fmt.Sprint(verifhooks.BigintsIndex(n, xs))
-	case "contains":
-		out = b01(verifhooks.BigintsContains(n, xs))
-	default:
-		out = b01(verifhooks.BigintsContainsSorted(n, xs))
-	}
-	g.Line("c19", op, bn.String(), encInts(vals), out, b01(bn.Cmp(n) == 0 && c19same(xs, ptrs, vals)))
+	out := ""
+	p := c19call(g, op, func() {
+		switch op {
+		case "index":
+			out = fmt.Sprint(verifhooks.BigintsIndex(n, xs))
+		case "contains":
+			out = b01(verifhooks.BigintsContains(n, xs))
+		default:
+			out = b01(verifhooks.BigintsContainsSorted(n, xs))
+		}
+	})
+	g.Line("c19", op, bn.String(), encInts(vals), c19out(p, out), b01(bn.Cmp(n) == 0 && c19same(xs, ptrs, vals)))
 	g.Count(op)
 }
 
 func c19Unique(g *Gen, xs []*big.Int) {
 	ptrs, vals := c19snap(xs)
-	r := verifhooks.BigintsUnique(xs)
-	out := encInts(r)
-	g.Line("c19", "unique", encInts(vals), out, b01(c19same(xs, ptrs, vals)))
+	out := ""
+	p := c19call(g, "unique", func() { out = encInts(verifhooks.BigintsUnique(xs)) })
+	g.Line("c19", "unique", encInts(vals), c19out(p, out), b01(c19same(xs, ptrs, vals)))
 	g.Count("unique")
 }
 
 func c19Insert(g *Gen, xs []*big.Int, x *big.Int) {
 	bx := new(big.Int).Set(x)
 	ptrs, vals := c19snap(xs)
-	r := verifhooks.BigintsInsertSortedUnique(xs, x)
-	g.Line("c19", "insert", encInts(vals), bx.String(), encInts(r), b01(bx.Cmp(x) == 0 && c19same(xs, ptrs, vals)))
+	out := ""
+	p := c19call(g, "insert", func() { out = encInts(verifhooks.BigintsInsertSortedUnique(xs, x)) })
+	g.Line("c19", "insert", encInts(vals), bx.String(), c19out(p, out), b01(bx.Cmp(x) == 0 && c19same(xs, ptrs, vals)))
 	g.Count("insert")
 }
 
 func c19Merge(g *Gen, xs, ys []*big.Int) {
 	px, vx := c19snap(xs)
 	py, vy := c19snap(ys)
-	r := verifhooks.BigintsMergeUnique(xs, ys)
-	g.Line("c19", "merge", encInts(vx), encInts(vy), encInts(r), b01(c19same(xs, px, vx) && c19same(ys, py, vy)))
+	out := ""
+	p := c19call(g, "merge", func() { out = encInts(verifhooks.BigintsMergeUnique(xs, ys)) })
+	g.Line("c19", "merge", encInts(vx), encInts(vy), c19out(p, out), b01(c19same(xs, px, vx) && c19same(ys, py, vy)))
 	g.Count("merge")
 }
 
@@ -236,22 +272,22 @@ func c19VAdd(g *Gen, u, v []*big.Int) {
 	pu, vu := c19snap(u)
 	pv, vv := c19snap(v)
 	out := ""
-	p := safe(func() {
+	p := c19call(g, "vadd", func() {
 		w := verifhooks.BigvectorAdd(c19vec(u), c19vec(v))
 		out = encInts(c19vecInts(w))
 	})
-	if p != "" {
-		out = "panic"
-		g.Count("vadd-panic")
-	}
-	g.Line("c19", "vadd", encInts(vu), encInts(vv), out, b01(c19same(u, pu, vu) && c19same(v, pv, vv)))
+	g.Line("c19", "vadd", encInts(vu), encInts(vv), c19out(p, out), b01(c19same(u, pu, vu) && c19same(v, pv, vv)))
 	g.Count("vadd")
 }
 
 func c19VLsh(g *Gen, v []*big.Int, s uint) {
 	pv, vv := c19snap(v)
-	w := verifhooks.BigvectorLsh(c19vec(v), s)
-	g.Line("c19", "vlsh", encInts(vv), fmt.Sprint(s), encInts(c19vecInts(w)), b01(c19same(v, pv, vv)))
+	out := ""
+	p := c19call(g, "vlsh", func() {
+		w := verifhooks.BigvectorLsh(c19vec(v), s)
+		out = encInts(c19vecInts(w))
+	})
+	g.Line("c19", "vlsh", encInts(vv), fmt.Sprint(s), c19out(p, out), b01(c19same(v, pv, vv)))
 	g.Count("vlsh")
 }
 
@@ -471,6 +507,15 @@ func genC19(g *Gen) {
 		c19Mask(g, n, n)
 	}
 
+	// --- Extract: small exhaustive first (every x < 64 (256), every l <= h <= 9), so the smallest
+	// counterexample is met before any large value ---
+	for x := int64(0); x < int64(g.pick(64, 256)); x++ {
+		for l := uint(0); l <= 9; l++ {
+			for h := l; h <= 9; h++ {
+				c19Extract(g, big.NewInt(x), l, h)
+			}
+		}
+	}
 	// --- Extract: every l <= h <= L on every boundary value; windows around the bit length ---
 	for _, x := range bnd {
 		for l := uint(0); l <= L; l++ {
@@ -777,8 +822,13 @@ func genC19(g *Gen) {
 	// basis / zero vectors of the package itself, and aliasing u = v
 	for n := 1; n <= 4; n++ {
 		for i := 0; i < n; i++ {
-			b := c19vecInts(verifhooks.BigvectorNewBasis(n, i))
-			zv := c19vecInts(verifhooks.BigvectorNew(n))
+			var b, zv []*big.Int
+			if c19call(g, "newbasis", func() {
+				b = c19vecInts(verifhooks.BigvectorNewBasis(n, i))
+				zv = c19vecInts(verifhooks.BigvectorNew(n))
+			}) {
+				continue // constructors are outside the property; counted in the generator statistics
+			}
 			c19VAdd(g, b, zv)
 			c19VAdd(g, b, b)
 			c19VLsh(g, b, uint(i+1))
